@@ -28,6 +28,12 @@ def gen_cases(tier, seed):
         base = {"nodes": nodes, "edges": edges, "flow": dict(zip(edges, fl)), "planted": [], "wt": "int", "mode": "edge"}
         cases.append({"cyc": False, "mode": "edge", "wt": "int", "kdelta": 0, "knone": False, "ignore": [], "scale": [], "starts": [], "ends": [], "superset": None,
                       "plr": [[[0, 3], [4, 60]], [1.0, 0.5]], "spec": I.spec_of(base)})
+    # ... and scaled UP by a factor > 1 (the ranges and factors of the class docstring's own example)
+    for fl in ([3, 0], [1, 0], [1, 0, 1], [5, 2, 0, 4]):
+        nodes = [str(i) for i in range(len(fl) + 1)]; edges = list(zip(nodes, nodes[1:]))
+        base = {"nodes": nodes, "edges": edges, "flow": dict(zip(edges, fl)), "planted": [], "wt": "int", "mode": "edge"}
+        cases.append({"cyc": False, "mode": "edge", "wt": "int", "kdelta": 0, "knone": False, "ignore": [], "scale": [], "starts": [], "ends": [], "superset": None,
+                      "plr": [[[0, 15], [16, 18], [19, 20], [21, 30], [31, 100000]], [1.6, 1.0, 1.3, 1.7, 1.0]], "spec": I.spec_of(base)})
     # corpus 'hourglass': every allowed weight exceeds every flow value and all paths share a zero-flow waist edge, so the error / slack on
     # the waist reaches the SUM of the allowed weights
     for f_, wst in ((9, 0), (4, 1), (7, 0)):
@@ -82,7 +88,7 @@ def gen_cases(tier, seed):
                 mx = max(base["flow"].values()) or 1
                 c["superset"] = [(mx + rng.choice([1, 2])) if wt == "int" else float(mx + 0.5)] * rng.randint(1, 3)
         if not cyc and wt == "int" and rng.random() < 0.15 and c["superset"] is None and not node:
-            c["plr"] = [[[0, 3], [4, 60]], [1.0, 0.5]]
+            c["plr"] = rng.choice([[[[0, 3], [4, 60]], [1.0, 0.5]], [[[0, 3], [4, 60]], [1.6, 1.0]], [[[0, 2], [3, 4], [5, 60]], [1.0, 1.7, 0.5]]])
         drop = [e for e in [models._elem(x) for x in c["ignore"]] if rng.random() < 0.3]
         c["spec"] = I.spec_of(base, drop_attr=drop)
         cases.append(c)
